@@ -19,6 +19,7 @@ EXPLANATION = (
     "mem::swap/replace/take, ptr::read/write/copy*, slice::swap/rotate/sort/reverse/copy_within; R8.3 no MIR move out of "
     "an Occupied payload, and no public signature hands out F, &mut F, Pin<&mut F> or an iterator of them (except "
     "try_push*'s Err(F), the never-accepted argument). Decided in full modulo Pin/Box<[T]>/pin-project-lite semantics.")
+WITNESSES = "thorough"  # E3 compile_fail witnesses (tier in which they run)
 ASSUMPTIONS = [
     "dev-profile MIR at mir-opt-level=0 represents the source",
     "Box<[T]> never reallocates; moving a Box / Vec<Box-holding struct> moves only pointers",
